@@ -19,9 +19,13 @@ def run(ctx):
         "round is started only between two messages (gvt_phase_run is never called from inside process_msg)",
         "node level: the message-counting core (colour flip, per-destination sent counts, reduce-scatter, receive polling) is "
         "modelled in Model/GvtNode.lean (theorems C04.Node.*) and tied by replaying the merged per-rank action logs of real "
-        "multi-rank runs; the composition 'thread-level cut + counting => no in-flight message below the reported value' is "
-        "NOT a theorem: it is monitored on multi-rank runs and on adversarial-peer runs (every remote message dequeued after "
-        "a GVT value was adopted is compared with it)",
+        "multi-rank runs; the composition 'thread-level cut + counting + min all-reduce => no queued / processed / in-flight "
+        "message below the reported value, now and for the rest of the round' is a theorem (C04.Global.gvt_safe, gvt_stable, "
+        "gvt_monotone) about the abstract node-granularity model Model/GvtGlobal.lean, whose step guards ARE the conclusions of "
+        "the two lower layers (pass <= C04.Node.old_colour_drained, report value <= C04.read_value/cut_safe, join between two "
+        "events, emitted time stamps >= the event being processed, exact MPI MIN); that abstract model is not replayed against "
+        "the C code itself: the same statement is additionally monitored on multi-rank and adversarial-peer runs (every remote "
+        "message dequeued after a GVT value was adopted is compared with it)",
         "the deterministic scheduler of harness/hc08.c"]
     ctx.assumptions += [
         "V2 + rollback rules: everything a thread inserts while processing / rolling back for a message with time stamp c "
@@ -38,6 +42,12 @@ def run(ctx):
                                                   "RootSim.C04.Node.counters_reset", "RootSim.C04.Node.passed_zero"])
         if ctx.tier == "thorough":
             ctx.leanchecker("RootSim.Props.C04")
+    # global level: thread-level cut + node-level counting + min all-reduce (abstract model, guards imported from the two layers)
+    ok3, _ = ctx.lean_build(["RootSim.Props.C04Global"])
+    if ok3:
+        ctx.axiom_audit("RootSim.Props.C04Global", ["RootSim.C04.Global." + n for n in (
+            "gvt_safe", "gvt_stable", "gvt_stable_run", "no_extract_below", "gvt_monotone", "round_end_is_round_start",
+            "gvt_eq_G", "needs_counting", "needs_accumulator_across_flip", "needs_join_between_events")])
     if not C08.build_hc08(ctx):
         return
     n = 10 if ctx.tier == "quick" else 300
